@@ -70,6 +70,7 @@ CATALOGUE = {
   (S, None, 'pncgen.py', "create_variable_kwds = self.create_variable_kwds.copy()", "create_variable_kwds = dict(self.create_variable_kwds)"),
  ],
  'C08': [
+  (F, 'R-LUZIP', 'camxfiles/landuse/Memmap.py', "            if len(file_dtype.names) == 3:\n                varkeys = ['FLAND', 'LAI', 'TOPO']\n            else:\n                varkeys = ['FLAND', 'TOPO']", "            varkeys = ['FLAND', 'TOPO']"),
   (F, 'R-ATTRFIELD', 'camxfiles/uamiv/Write.py', "grid_hdr['dely'] = ncffile.YCELL", "grid_hdr['dely'] = ncffile.XCELL"),
   (F, 'R-HDRTABLE', 'camxfiles/uamiv/Write.py', "'nx', 'ny', 'nz', 'iproj', 'istag', 'tlat1',", "'ny', 'nx', 'nz', 'iproj', 'istag', 'tlat1',"),
   (F, 'R-HDRTABLE', 'camxfiles/lateral_boundary/Write.py', "formats=['>i', '>i', '>f', '>i', '>f', '>i']))\n\n_spc_fmt", "formats=['>i', '>i', '>i', '>f', '>f', '>i']))\n\n_spc_fmt"),
